@@ -1279,6 +1279,8 @@ def _zip(eng, args, kwargs, node):
 
 @ext("ord")
 def _ord(eng, args, kwargs, node):
+    if isinstance(args[0], SOpq) and eng.abstract:
+        return SInt(V.uf("ord_of", V.vsort(), z3.IntSort())(args[0].t))
     x = args[0]
     if not is_sym(x):
         if isinstance(x, (bytes, str)) and len(x) == 1:
